@@ -83,6 +83,11 @@ func (s *Server) Serve(listeners []net.Listener) error {
 		return ErrServerClosed
 	default:
 	}
+	if s.serving {
+		// a second Serve would start every peer a second time
+		s.mu.Unlock()
+		return errors.New("server is already serving")
+	}
 
 	// set serving state and enable peers
 	s.serving = true
